@@ -343,7 +343,7 @@ def run(ctx):
         for lo in range(0, N, step):
             gargs.append((n, lo, min(N, lo + step), True, stride))
     rep.merge(fw.run_shards(ctx, "props.c19", "shard_graphs", gargs))
-    oargs = [(ctx.seed * 1000 + i, 120 if ctx.quick else 3000, ctx.deadline) for i in range(16)]
+    oargs = [(ctx.seed * 1000 + i, 120 if ctx.quick else 25000, ctx.deadline) for i in range(16)]
     rep.merge(fw.run_shards(ctx, "props.c19", "shard_graph_ops", oargs))
     rep.extra["exhaustive"] = True
     rep.extra["exhaustive_note"] = ("codec / complementation predicates over all graphs, vertices, class ids and grouping indices; "
